@@ -91,6 +91,10 @@ def jobs(tier, seed):
     for doc in ('html', 'css', 'js', 'sitemap', 'sitemap-txt'):
         js.append(dict(kind='doc', doc=doc, stride=stride if doc == 'html' else 1))
     js.append(dict(kind='e2e'))
+    occ = [0, 1, 2] if tier == 'quick' else [0, 1, 2, 3, 4, 5]
+    for stage in FTP_E2E_STAGES:
+        for scen in FTP_E2E_SCENARIOS:
+            js.append(dict(kind='ftp-e2e', stage=stage, scenario=scen, occ=occ))
     js.append(dict(kind='longline'))
     js.append(dict(kind='charset'))
     for i in range(0, len(HEADER_VALUES), 6):
@@ -394,6 +398,23 @@ def run_job(job):
                                dict(kind='doc', doc=doc, data=data.decode('latin-1'),
                                     variant=['charset', cs]))
         res['samples'].append(dict(surface='declared charset', charsets=CHARSETS[:12]))
+    elif kind == 'ftp-e2e':
+        n = 0
+        for value in ftp_e2e_values(job['stage']):
+            for k in job['occ']:
+                v = run_ftp_e2e(job['scenario'], job['stage'], value, k)
+                n += 1
+                res['evaluations'] += 1
+                res['distinct'].add(h64(('ftp-e2e', job['scenario'], job['stage'], value, k)))
+                res['outcomes']['ok' if not v else 'bad'] = \
+                    res['outcomes'].get('ok' if not v else 'bad', 0) + 1
+                if v:
+                    record(res, seen, 'ftp-e2e/%s/%s' % (job['scenario'], job['stage']),
+                           '%r at use %d' % (value[:30], k), v,
+                           dict(kind='ftp-e2e', scenario=job['scenario'], stage=job['stage'],
+                                value=value, occ=k))
+        res['samples'].append(dict(surface='ftp end-to-end', scenario=job['scenario'],
+                                   stage=job['stage'], cases=n))
     elif kind == 'header-e2e':
         for name, value in HEADER_VALUES[job['idx'][0]:job['idx'][1]]:
             v = run_header_e2e(name, value)
@@ -497,6 +518,78 @@ HEADER_VALUES = [
 ]
 
 
+PASV_OK = '227 Entering Passive Mode (10,0,0,1,8,73)\r\n'
+FTP_LISTING_OK = ('-rw-r--r-- 1 u g 5 Jan 01 2020 f.txt\r\n'
+                  '-rw-r--r-- 1 u g 5 Jan 01 2020 g.txt\r\n')
+FTP_E2E_DEFAULTS = dict(
+    welcome='220 ready\r\n', user='331 need password\r\n', pass_='230 logged in\r\n',
+    type_='200 ok\r\n', pasv=PASV_OK, mlsd='500 unknown command\r\n',
+    list_begin='150 here it comes\r\n', size='213 5\r\n', retr_begin='150 opening\r\n',
+    retr_end='226 transfer complete\r\n', end_mode='normal', listing=FTP_LISTING_OK)
+FTP_E2E_STAGES = ['welcome', 'user', 'pass_', 'type_', 'pasv', 'mlsd', 'list_begin', 'size',
+                  'retr_begin', 'retr_end', 'end_mode', 'listing']
+FTP_E2E_REPLIES = [
+    '500 no\r\n', '421 closing\r\n', '550 missing\r\n', '999 what\r\n', '12 short\r\n',
+    'abc\r\n', '\r\n', '2000 long\r\n', '200 \xff\xfe\x00\r\n', '150-multi\r\n', '226 early\r\n',
+    '150 ok\r\n226 done\r\n', '227 garbage\r\n', '227 (1,2,3,4,5)\r\n',
+    '227 Entering Passive Mode (999,0,0,1,900,900)\r\n', '213 notanumber\r\n', '213 -5\r\n',
+    '213 ' + '9' * 400 + '\r\n', '350 pending\r\n', '230 again\r\n', '331 again\r\n', '220',
+]
+FTP_E2E_LISTINGS = [
+    '', 'total 0\r\n', '\x00\x00\r\n', 'drwxr-xr-x 1 u g 0 Jan 99 9999 d\r\n',
+    '-rw-r--r-- 1 u g 5 Jan 01 2020 ../../etc\r\n', '01-01-20  10:00AM  <DIR>  sub\r\n',
+    '\xff\xfe garbage \x85\r\n', 'type=file;size=5; f.txt\r\n', 'type=dir;modify=garbage; d\r\n',
+    'type=file;size=abc; f.txt\r\n', 'type=;; \r\n', 'x' * 70000,
+    'lrwxrwxrwx 1 u g 5 Jan 01 2020 f.txt -> \r\n',
+    '-rw-r--r-- 1 u g 99999999999999999999999 Jan 01 2020 f.txt\r\n',
+    '-rwsr-Sr-T 1 u g 5 Feb 30 25:61 f.txt\r\n',
+]
+FTP_E2E_SCENARIOS = {
+    'files': (['ftp://f.test/dir/f.txt', 'ftp://f.test/zz/g.txt'], []),
+    'tree': (['ftp://f.test/dir/'], ['-r', '--preserve-permissions']),
+}
+
+
+def ftp_e2e_values(stage):
+    if stage == 'end_mode':
+        return ['426', 'ctrl-close', 'no-226', 'no-data-eof']
+    if stage == 'listing':
+        return FTP_E2E_LISTINGS
+    if stage == 'mlsd':
+        return FTP_E2E_REPLIES + ['150 mlsd follows\r\n']
+    return FTP_E2E_REPLIES
+
+
+def run_ftp_e2e(scenario, stage, value, occ):
+    """Crawl FTP URLs through the unmodified application against a scripted server whose
+    ``occ``-th use of ``stage`` answers ``value`` (every other use answers normally).  The
+    crawl must end by itself, with no exception out of the application or the loop, and every
+    stored URL in a final state (the affected URL failed or skipped, the others fetched)."""
+    from vt.appharn import AppRun
+    from vt.ftpharn import FTPPeer
+    script = dict(FTP_E2E_DEFAULTS)
+    script[stage] = [FTP_E2E_DEFAULTS[stage]] * occ + [value, FTP_E2E_DEFAULTS[stage]]
+    if stage == 'listing' and value.startswith('type='):
+        script['mlsd'] = '150 mlsd follows\r\n'
+    urls, extra = FTP_E2E_SCENARIOS[scenario]
+    argv = list(urls) + ['--waitretry', '0', '--tries', '2', '--timeout', '5'] + list(extra)
+    site = {'hosts': {'f.test': {}}}
+    out = AppRun(site, argv, Chooser(), early=False, peer=FTPPeer(script),
+                 horizon=20000).run()
+    if out['result'] != 'ok':
+        return 'crawl does not terminate: %s' % out['result']
+    if out['exc']:
+        return 'application raised %s' % out['exc'][:80]
+    if out['exit'] == 1:
+        return 'exit status 1 (generic error / crash)'
+    if out['loop_errors']:
+        return 'unretrieved exception %r' % (out['loop_errors'][:1],)
+    for u, r in sorted((out['rows'] or {}).items()):
+        if r['status'] not in ('done', 'error', 'skipped'):
+            return 'crawl ended with %s left %s' % (u, r['status'])
+    return None
+
+
 def run_header_e2e(name, value):
     """Crawl (files are written: default file writer) where one page carries a hostile
     header value."""
@@ -597,6 +690,8 @@ def replay(rec):
         v = run_robots_e2e(rec['status'], rec['body'])
     elif k == 'header-e2e':
         v = run_header_e2e(rec['name'], rec['value'])
+    elif k == 'ftp-e2e':
+        v = run_ftp_e2e(rec['scenario'], rec['stage'], rec['value'], rec['occ'])
     elif k == 'doc':
         v = run_doc_case(rec['doc'], rec['data'].encode('latin-1'), rec['variant'])
     else:
